@@ -107,23 +107,28 @@ def expected_effects(v):
         return [("call", "<reph>")]
     if need(v.T("char_some"), "whether the value has a first character"):
         if need(v.T("char_pred", "is_kar"), "whether the key is a vowel sign"):
-            marks, lit = v.rmc_in_marks()
-            av = t_and(v.cfg("get_fixed_automatic_vowel"), t_or(v.T("buf_empty"), v.T("rmc_pred", "is_vowel"), marks))
-            if need(av, "automatic vowel forming (option ∧ (start ∨ after vowel ∨ after punctuation))"):
-                return table_effect(v, False)
-            if need(t_and(v.cfg("get_fixed_automatic_chandra"), v.rmc_is(CHANDRA)), "automatic chandrabindu (option ∧ after ঁ)"):
-                return [("pop",), ("push", "<character>"), ("push", CHANDRA)]
-            if need(v.rmc_is(HASANTA), "whether the sign follows a hasanta"):
-                return table_effect(v, True)
-            if need(t_and(v.cfg("get_fixed_traditional_kar"), v.T("rmc_pred", "is_pure_consonant")), "traditional joining (option ∧ after a consonant)"):
-                lig = need(v.T("char_pred", "is_ligature_making_kar"), "whether the sign is ু ূ ৃ")
-                return ([("push", ZWNJ)] if lig else []) + [("push", "<character>")]
-            return [("push", "<character>")]
+            return kar_rules(v)
         if need(t_and(v.char_is(HASANTA), v.rmc_is(HASANTA)), "second hasanta"):
             return [("push", ZWNJ)]
         if need(t_and(v.char_is(LENGTH_MARK), v.rmc_is(HASANTA)), "AU length mark after hasanta"):
             return [("pop",), ("push", OU)]
     return [("push_str", "<value>")]
+
+
+def kar_rules(v):
+    """The documented rules for a vowel sign (shared with the old-order rule list of C14, which falls through to them)."""
+    marks, lit = v.rmc_in_marks()
+    av = t_and(v.cfg("get_fixed_automatic_vowel"), t_or(v.T("buf_empty"), v.T("rmc_pred", "is_vowel"), marks))
+    if need(av, "automatic vowel forming (option ∧ (start ∨ after vowel ∨ after punctuation))"):
+        return table_effect(v, False)
+    if need(t_and(v.cfg("get_fixed_automatic_chandra"), v.rmc_is(CHANDRA)), "automatic chandrabindu (option ∧ after ঁ)"):
+        return [("pop",), ("push", "<character>"), ("push", CHANDRA)]
+    if need(v.rmc_is(HASANTA), "whether the sign follows a hasanta"):
+        return table_effect(v, True)
+    if need(t_and(v.cfg("get_fixed_traditional_kar"), v.T("rmc_pred", "is_pure_consonant")), "traditional joining (option ∧ after a consonant)"):
+        lig = need(v.T("char_pred", "is_ligature_making_kar"), "whether the sign is ু ূ ৃ")
+        return ([("push", ZWNJ)] if lig else []) + [("push", "<character>")]
+    return [("push", "<character>")]
 
 
 def table_effect(v, after_hasanta):
